@@ -9,7 +9,7 @@ import time
 LEVEL = "exploration"
 
 SKIP_TABLES = {"alembic_version", "redun_version", "redun_migration", "tmp_ancestors"}
-POPULATIONS = ["two-rows", "one-row-nulls", "lonely-task", "root-job-without-execution", "empty"]
+POPULATIONS = ["two-rows", "one-row-nulls", "lonely-task", "root-job-without-execution", "empty", "nonplain-task-values"]
 
 
 def schema(con):
@@ -81,6 +81,20 @@ def populate(con, info, kind):
                 con.execute(f"insert into {t} ({','.join(names)}) values ({','.join('?' * len(names))})", vals)
             except sqlite3.IntegrityError:
                 pass  # duplicate composite keys produced by the generator (e.g. both rows of an edge table equal)
+    if kind == "nonplain-task-values" and "task" in info and "value" in info:
+        # every task has a companion value row under its own hash whose type is NOT the plain task type (scheduler task, partial task)
+        vcols = info["value"]["cols"]
+        for i, (h,) in enumerate(con.execute("select hash from task order by hash").fetchall()):
+            names, vals = [], []
+            for col in vcols:
+                v = gen_value(info, "value", col, i)
+                if col[1] == "value_hash":
+                    v = h
+                if col[1] == "type":
+                    v = ["redun.task.SchedulerTask", "redun.PartialTask"][i % 2]
+                names.append(col[1])
+                vals.append(v)
+            con.execute(f"insert or replace into value ({','.join(names)}) values ({','.join('?' * len(names))})", vals)
     con.commit()
 
 
@@ -204,8 +218,8 @@ def run(ctx):
     return {"coverage": {
         "evaluations": len(items), "distinct_nontrivial": len([i for i in items if i[1] != "empty"]),
         "rows_compared": sum(r["rows"] for r in res), "column_values_compared": sum(r["cols"] for r in res), "exhaustive": True,
-        "rule": "each of the 11 historical schema versions as starting point x 5 populations generated from the reflected schema (two FK-consistent rows "
-        "per table; one row with every nullable non-key column NULL; tasks without companion values; root jobs without an execution; empty), upgraded "
+        "rule": "each of the 11 historical schema versions as starting point x 6 populations generated from the reflected schema (two FK-consistent rows "
+        "per table; one row with every nullable non-key column NULL; tasks without companion values; tasks whose companion value is a scheduler / partial task value; root jobs without an execution; empty), upgraded "
         "to head by load() with TZ=UTC (the two populated kinds also with TZ=JST-9, where the 3.3->3.4 step must move job times by exactly the "
         "zone offset, finished or not); oracle: every (table, primary key) is still present with equal values in the shared columns (timestamps "
         "compared as instants), and a workflow run twice on the upgraded file succeeds with the second run fully cached",
